@@ -491,18 +491,27 @@ impl<'m> St<'m> {
                         };
                         // bo[j..kb] must be a subsequence of ao[i..ka]
                         let mut p = i;
+                        let mut dead_inserted = 0usize;
                         for q in j..kb {
                             let mut found = false;
-                            while p < ka {
-                                if self.cmp_op(&ao[p].0, &bo[q].0, Some(&mut ctx), false).is_ok() {
-                                    self.cmp_op(&ao[p].0, &bo[q].0, Some(&mut ctx), true)
-                                        .map_err(|m| Mismatch { sig: m.sig, detail: format!("{} ({})", m.detail, at(p, q)) })?;
-                                    op_map[p] = Some(q);
-                                    p += 1;
+                            let mut pp = p;
+                            while pp < ka {
+                                if self.cmp_op(&ao[pp].0, &bo[q].0, Some(&mut ctx), false).is_ok() {
+                                    self.cmp_op(&ao[pp].0, &bo[q].0, Some(&mut ctx), true)
+                                        .map_err(|m| Mismatch { sig: m.sig, detail: format!("{} ({})", m.detail, at(pp, q)) })?;
+                                    op_map[pp] = Some(q);
+                                    p = pp + 1;
                                     found = true;
                                     break;
                                 }
-                                p += 1;
+                                pp += 1;
+                            }
+                            if !found && bo[q].0.name == "Else" && q + 1 < nb && bo[q + 1].0.name == "End" {
+                                // an empty `else` synthesised inside code the input never reaches
+                                b_inserted.push(q);
+                                ins_else += 1;
+                                dead_inserted += 1;
+                                continue;
                             }
                             if !found {
                                 return mm(
@@ -511,7 +520,7 @@ impl<'m> St<'m> {
                                 );
                             }
                         }
-                        elided += (ka - i) - (kb - j);
+                        elided += (ka - i) + dead_inserted - (kb - j);
                         i = ka;
                         j = kb;
                     }
@@ -587,6 +596,28 @@ impl<'m> St<'m> {
                         return Ok(done);
                     }
                 }
+                // diagnosis: if a plausible partner exists (same intrinsic marker, or the only
+                // candidate), report why *that* pairing fails instead of a generic message
+                let plausible: Option<u32> = if ua.len() == 1 {
+                    Some(ua[0])
+                } else if s == Space::Func {
+                    let mk = func_marker(self.b, bj);
+                    if mk.is_some() {
+                        let c: Vec<u32> = ua.iter().copied().filter(|ai| func_marker(self.a, *ai) == mk).collect();
+                        if c.len() == 1 { Some(c[0]) } else { None }
+                    } else {
+                        None
+                    }
+                } else {
+                    None
+                };
+                if let Some(ai) = plausible {
+                    let mut t = self.clone();
+                    let r = t.bind(s, ai, bj).and_then(|_| t.propagate());
+                    if let Err(m) = r {
+                        return Err(Mismatch { sig: m.sig, detail: format!("{} [pairing input {:?} {} with output {} by marker/uniqueness]", m.detail, s, ai, bj) });
+                    }
+                }
                 return mm(
                     format!("entity-added:{:?}", s),
                     format!("output {:?} {} corresponds to no input entity", s, bj),
@@ -595,6 +626,17 @@ impl<'m> St<'m> {
         }
         Ok(self)
     }
+}
+
+/// the `i32.const K; drop` prologue generated families put at the start of every function
+pub fn func_marker(m: &WModule, f: u32) -> Option<i32> {
+    let b = m.funcs.get(f as usize)?.body.as_ref()?;
+    if b.ops.len() >= 2 && b.ops[0].0.name == "I32Const" && b.ops[1].0.name == "Drop" {
+        if let Imm::I32(k) = b.ops[0].0.imms[0] {
+            return Some(k);
+        }
+    }
+    None
 }
 
 #[derive(Debug, Clone, PartialEq)]
